@@ -343,6 +343,8 @@ fn one_case(case: &str, xot: &mut Xot, reg: &Reg, a: &ANode, out: &mut Out, stat
     stats.add("tree_nodes", n as u64);
     let obs = run_tree(case, xot, root, out, stats);
     out.imp(&format!("{} {}", case, obs));
+    // the typed predicates and convenience accessors agree with value / parent / children / the map views on every node
+    xh::accessors::accessor_agreement(case, xot, root, out, stats);
 }
 
 fn main() {
